@@ -32,6 +32,31 @@ type fileInfo struct {
 	funcNames map[string]struct{}
 }
 
+// declaredNames returns the names that a declaration at the top of a file gives to the package:
+// of a function (not a method), and of variables, constants and types, one of which can hold a function as well.
+func declaredNames(d ast.Decl) []string {
+	switch d := d.(type) {
+	case *ast.FuncDecl:
+		if d.Recv == nil {
+			return []string{d.Name.Name}
+		}
+	case *ast.GenDecl:
+		var names []string
+		for _, spec := range d.Specs {
+			switch spec := spec.(type) {
+			case *ast.ValueSpec:
+				for _, name := range spec.Names {
+					names = append(names, name.Name)
+				}
+			case *ast.TypeSpec:
+				names = append(names, spec.Name.Name)
+			}
+		}
+		return names
+	}
+	return nil
+}
+
 func newFileInfos(program *loader.Program, pkgInfo *loader.PackageInfo) []*fileInfo {
 	files := []*fileInfo{}
 	// The functions that the user wrote by hand. One of them can bear the name of a function of an old derived.gen.go,
@@ -43,8 +68,8 @@ func newFileInfos(program *loader.Program, pkgInfo *loader.PackageInfo) []*fileI
 			continue
 		}
 		for _, d := range astFile.Decls {
-			if fn, isFunc := d.(*ast.FuncDecl); isFunc && fn.Recv == nil {
-				byHand[fn.Name.Name] = struct{}{}
+			for _, name := range declaredNames(d) {
+				byHand[name] = struct{}{}
 			}
 		}
 	}
